@@ -718,6 +718,9 @@ func (e *Env) call(n *ast.CallExpr) *Val {
 		nv, ov := arg(0), arg(1)
 		return boolVal(or(and(eq(app("lref", nv.Term), app("lref", ov.Term)), eq(app("loff", nv.Term), app("loff", ov.Term)), eq(app("lcap", nv.Term), app("lcap", ov.Term))),
 			app(">=", app("lref", nv.Term), c.next(e.old))))
+	case "sameobject":
+		nv, ov := arg(0), arg(1)
+		return boolVal(eq(app("lref", nv.Term), app("lref", ov.Term)))
 	case "samearray":
 		nv, ov := arg(0), arg(1)
 		return boolVal(and(eq(app("lref", nv.Term), app("lref", ov.Term)), eq(app("loff", nv.Term), app("loff", ov.Term))))
